@@ -139,6 +139,78 @@ def impl_recv(case):
     return obs, datas, full
 
 
+class Turnstile:
+    """lets several reader threads take strict turns: every recv of a TurnSocket is one turn"""
+
+    def __init__(self, n):
+        import threading
+        self.cv = threading.Condition()
+        self.turn, self.active = 0, list(range(n))
+
+    def enter(self, me):
+        with self.cv:
+            self.cv.wait_for(lambda: self.turn == me or self.turn not in self.active, timeout=5)
+
+    def leave(self, me, done=False):
+        with self.cv:
+            if done and me in self.active:
+                self.active.remove(me)
+            if self.active:
+                later = [i for i in self.active if i > me]
+                self.turn = later[0] if later else self.active[0]
+            self.cv.notify_all()
+
+
+class TurnSocket(ScriptedSocket):
+    def __init__(self, buf, seg, me, ts):
+        super().__init__(buf, [])
+        self.seg, self.me, self.ts = seg, me, ts
+
+    def recv(self, n):
+        self.ts.enter(self.me)
+        try:
+            if n <= 0 or not self.buf:
+                return b''
+            k = min(n, self.seg)
+            r, self.buf = self.buf[:k], self.buf[k:]
+            return r
+        finally:
+            self.ts.leave(self.me)
+
+
+def interleaved_readers(sizes_per_reader, seg):
+    """several threads of one process, each reading its own connection with recv_msg, every message arriving in segments of
+    `seg` bytes and the threads taking strict turns segment by segment.  Returns per reader the list of observations."""
+    import threading
+    from pyworkers import remote, remote_pickle
+    n = len(sizes_per_reader)
+    ts = Turnstile(n)
+    payloads = [[bytes([65 + r]) * sz for sz in sizes] for r, sizes in enumerate(sizes_per_reader)]
+    socks = [TurnSocket(b''.join(struct.pack('!I', len(d)) + d for d in map(remote_pickle.dumps, ps)), seg, r, ts) for r, ps in enumerate(payloads)]
+    obs = [[] for _ in range(n)]
+
+    def reader(r):
+        try:
+            for i, want in enumerate(payloads[r]):
+                try:
+                    m = remote.recv_msg(socks[r])
+                except BaseException as e:   # noqa
+                    obs[r].append(('exn', exn_name(e))); return
+                if m == want:
+                    obs[r].append(('msg', i))
+                else:
+                    other = sorted(set(m)) if isinstance(m, bytes) else None
+                    obs[r].append(('wrong', f'{type(m).__name__} of length {len(m) if hasattr(m, "__len__") else "?"} with byte values {other[:4] if other else other}'))
+        finally:
+            ts.leave(r, done=True)
+    th = [threading.Thread(target=reader, args=(r,), daemon=True) for r in range(n)]
+    for t in th:
+        t.start()
+    for t in th:
+        t.join(60)
+    return obs, [t.is_alive() for t in th]
+
+
 def obs_coq(obs):
     out = []
     for o in obs:
@@ -328,6 +400,17 @@ def main(tier, seed, replay=None):
             res.violation(dict(send=[repr(m)[:40] for m in msgs], err=err), 'send_msg must write exactly the frames, or raise ConnectionClosedError when the socket fails', observed=(e, len(s.out)))
         terms.append(f'check_send [{"; ".join(rle(d) for d in datas)}] {FIN_COQ[err]} {"None" if e is None else "(Some " + e + ")"} {rle(s.out)}')
 
+    # several connections read at the same time by threads of one process (the parent of several remote workers does this)
+    for sizes, seg in ([[[3000, 100], [3000, 100]], 1000], [[[100, 50000], [70000], [20, 9000, 9000]], 4096], [[[200000], [200000]], 65536], [[[5], [7]], 3]):
+        obs, stuck = interleaved_readers(sizes, seg)
+        res.case(('interleaved-readers', repr(sizes), seg), nontrivial=True, sample=dict(readers=sizes, segment=seg, observed=[[list(o) for o in ob] for ob in obs]))
+        res.count('kind:interleaved-readers')
+        for r, ob in enumerate(obs):
+            if stuck[r] or ob != [('msg', i) for i in range(len(sizes[r]))]:
+                res.violation(dict(concurrent_readers=dict(payload_sizes_per_connection=sizes, segment_bytes=seg, schedule='the reader threads take strict turns, one recv each'), reader=r),
+                              f'reader {r} (its own connection, its own thread) must receive exactly its {len(sizes[r])} messages in order; observed {ob}' + (' and it never returned' if stuck[r] else ''),
+                              observed=[[list(o) for o in x] for x in obs])
+                break
     if gen_ok:
         bad, err = core.coq_eval_cases(PROP, HEADER, terms, per_file=120)
         res.traces_validated = len(terms) - len(bad)
